@@ -1019,8 +1019,8 @@ func (r *runner) explainMissing(q Query, missing []map[string]any, driving []*F)
 			add(sigNlikeNull, func(row map[string]any) bool { return row[sel] == nil })
 		}
 		// JSON conditions evaluated against index leaves instead of the value the filter names
-		// the same like matcher under _any: an array at the path holding a non-string element
-		if fd.Kind == "json" && l.Arr == "_any" && negLike {
+		// the same like matcher under _any / _all: an array at the path holding a non-string element
+		if fd.Kind == "json" && (l.Arr == "_any" || l.Arr == "_all") && negLike {
 			add(sigJSONNlikeNonString, func(row map[string]any) bool {
 				v, found := jsonAt(row["j"], l.Path)
 				arr, ok := v.([]any)
